@@ -63,7 +63,8 @@ Pending ==
          n == NTeams(sh)
      IN  {<<ki, sh, op, "teams", path, k>> : op \in Ops, path \in Paths(g), k \in 1..NBad}
          \cup {<<ki, sh, "rate", sel, path, k>> : sel \in {"ranks", "scores"}, path \in Paths(DefaultSel(n)), k \in 1..NBad}
-         \cup {<<ki, sh, op, v, <<>>, 0>> : op \in Ops, v \in {"one_team", "no_team", "empty_last", "empty_first", "ok_plain"}}
+         \cup {<<ki, sh, op, v, <<>>, 0>> : op \in Ops, v \in {"one_team", "no_team", "empty_last", "empty_first", "ok_plain",
+                                                                 "empty_then_tuple", "tuple_then_empty", "empty_then_foreign", "foreign_then_empty", "empty_then_none"}}
          \cup {<<ki, sh, "rate", v, <<>>, 0>> : v \in Variants}
      : sh \in Shapes} : ki \in {k \in 1..5 : KindSeq[k] \in KindSet}}
 
@@ -79,6 +80,12 @@ CallOf(p) ==
                  [] what = "no_team"     -> PList(<<>>)
                  [] what = "empty_last"  -> [g EXCEPT !.items[n] = PList(<<>>)]
                  [] what = "empty_first" -> [g EXCEPT !.items[1] = PList(<<>>)]
+                 \* two faults in one call: which is reported first must not depend on the model class (C19)
+                 [] what = "empty_then_tuple"   -> [g EXCEPT !.items[1] = PList(<<>>), !.items[2] = PTuple(g.items[2].items)]
+                 [] what = "tuple_then_empty"   -> [g EXCEPT !.items[1] = PTuple(g.items[1].items), !.items[2] = PList(<<>>)]
+                 [] what = "empty_then_foreign" -> [g EXCEPT !.items[1] = PList(<<>>), !.items[2] = PList(<<L(fb + 1)>>)]
+                 [] what = "foreign_then_empty" -> [g EXCEPT !.items[1] = PList(<<L(fb + 1)>>), !.items[2] = PList(<<>>)]
+                 [] what = "empty_then_none"    -> PList(<<g.items[1], PList(<<>>), PNone>> \o SubSeq(g.items, 2, n))
                  [] OTHER -> g
       ranks == CASE what = "ranks"        -> Subst(sel, path, Bad(b, fb)[k])
                  [] what = "ranks_short"  -> PList(SubSeq(sel.items, 1, n - 1))
